@@ -59,8 +59,8 @@ CHECKS['C03'] = {
     'verus_units': ['eval', 'select', 'mapping'],
     'clause_prefixes': ['c03', 'value.', 'engine.', 'row.', 'select.'],
     'technique': 'contract-based deductive verification (Verus): arms of ExpressionExecutionEngine::evaluate extracted from /repo and proved against a recursive specification sem_eval written from the property text; structural induction through the contract of evaluate',
-    'claim': 'Proof, for all expression trees, rows and values, that the extracted arms of evaluate (literal, column access, comparison, IS, arithmetic, unary, AND/OR, IN/NOT IN, subscript, CASE, aggregate reference) return exactly sem_eval(expression, row) - comparisons by value and false on NULL, NULL-propagating arithmetic with overflow and division by zero as errors, two-valued logic, IN as OR of =, first true CASE branch, 1-based subscripts - or an error when sem_eval has no value. Function calls: the arguments are evaluated left to right and the first one without a value ends the call; make_timestamp (seven INT parts as documented, a part that does not fit its field gives NULL, never a wrapped date), greatest / least (same-type pairs, NULL gives NULL), abs (exact or no value), array_length are proved equal to sem_function written from the README; array_cat / array_append / array_prepend are proved against relational specifications (element order, element type check); for each of these functions a call with the documented number of arguments is proved to reach the arm of its function (rule E3d).',
-    'note': 'Trusted: derived comparison of Value (uninterpreted value_cmp; its laws are C16), IEEE and chrono arithmetic as uninterpreted total functions, ValueType::parse, closure/loop contracts spliced by ordinal (rule E5). Unproved: the FunctionCall arms sqrt, pow, length, upper, lower, regexp_matches, array / array_unique, now, EXTRACT parts, date_trunc (chrono / regex / IEEE), TypeConversion; lowering of parse trees and result column names are not covered.',
+    'claim': 'Proof, for all expression trees, rows and values, that the extracted arms of evaluate (literal, column access, comparison, IS, arithmetic, unary, AND/OR, IN/NOT IN, subscript, CASE, aggregate reference) return exactly sem_eval(expression, row) - comparisons by value and false on NULL, NULL-propagating arithmetic with overflow and division by zero as errors, two-valued logic, IN as OR of =, first true CASE branch, 1-based subscripts - or an error when sem_eval has no value. Function calls: the arguments are evaluated left to right and the first one without a value ends the call; make_timestamp (seven INT parts as documented, a part that does not fit its field gives NULL, never a wrapped date), greatest / least (same-type pairs, NULL gives NULL), abs and pow (exact or no value), sqrt, length (characters), upper / lower, EXTRACT year..second, array_length are proved equal to sem_function written from the README; casts (TypeConversion) are proved equal to sem_convert (text is parsed as the target type, an interval counts its seconds, a value of the target type is itself, anything renders as text, every other combination has no value); array_cat / array_append / array_prepend are proved against relational specifications (element order, element type check); for each of these functions a call with the documented number of arguments is proved to reach the arm of its function (rule E3d).',
+    'note': 'Trusted: derived comparison of Value (uninterpreted value_cmp; its laws are C16), IEEE and chrono arithmetic as uninterpreted total functions, ValueType::parse, closure/loop contracts spliced by ordinal (rule E5). Unproved: the FunctionCall arms regexp_matches, array / array_unique, now, EXTRACT(EPOCH), date_trunc (chrono / regex / iterator adapters); lowering of parse trees and result column names are not covered.',
     'level': 'proof',
     'explanation': 'Each match arm of evaluate is emitted as its own function (rule E3) whose body is the arm text from /repo; recursive calls see the full contract of evaluate, so the arms together are a proof by structural induction that evaluate refines sem_eval.',
     'trusted': COMMON_TRUST + [
@@ -68,7 +68,7 @@ CHECKS['C03'] = {
         'f64 arithmetic and chrono DateTime/Duration arithmetic are uninterpreted total functions (chrono range overflow is not modelled)',
         'termination of evaluate (recursion on strict sub-expressions) is not checked: evaluate is external_body for its callers',
     ],
-    'unproved': ['evaluate arms FunctionCall for sqrt, pow, length, upper, lower, regexp_matches, array, array_unique, now, EXTRACT, date_trunc', 'evaluate arm TypeConversion', 'parser_tree_converter lowering, projection naming'],
+    'unproved': ['evaluate arms FunctionCall for regexp_matches, array, array_unique, now, EXTRACT(EPOCH), date_trunc', 'parser_tree_converter lowering, projection naming'],
 }
 CHECKS['C09'] = {
     'verus_units': ['eval', 'follow', 'select', 'engine', 'extract', 'parser', 'tokenizer', 'converter', 'executor', 'aggregate', 'aggdispatch', 'aggresult', 'join', 'joinload', 'mapping'],
@@ -80,7 +80,7 @@ CHECKS['C09'] = {
     'level': 'proof',
     'explanation': 'Verus generates, for every extracted function, the obligations that each arithmetic operation fits its type, each divisor is non-zero, each index is in bounds and each callee precondition (including `requires false` of the unimplemented!/panic! stand-in) holds; this check counts exactly those.',
     'trusted': COMMON_TRUST,
-    'unproved': ['OutputPrinter::print', 'Parser::parse_* grammar functions, parser_tree_converter', 'ValueType::parse (chrono, Local time zone)', 'Value::json_value', 'evaluate arms FunctionCall / TypeConversion'],
+    'unproved': ['OutputPrinter::print', 'Parser::parse_* grammar functions, parser_tree_converter', 'ValueType::parse (chrono, Local time zone)', 'Value::json_value', 'evaluate arms FunctionCall for regexp_matches / array / array_unique / now / EXTRACT(EPOCH) / date_trunc'],
 }
 
 CHECKS['C08'] = {
